@@ -20,6 +20,7 @@ type Repo struct {
 	Dir  string
 	Fset *token.FileSet
 	Pkgs []*packages.Package
+	visitorLit *FuncInfo
 	// Normalised: this is the helper-inlined view (normalise.go); positions refer to the inlined text
 	Normalised bool
 	ByName     map[string]*packages.Package // package name -> package ("main", "derive", "equal", ...)
@@ -199,6 +200,12 @@ func (r *Repo) lookup(key string) *FuncInfo {
 			return fi
 		}
 	}
+	// the visitor that finds the derive calls may be a function literal handed to ast.Inspect instead of a Visit method
+	if key == "derive.(*finder).Visit" {
+		if fi := r.visitorLiteral(); fi != nil {
+			return fi
+		}
+	}
 	// the same function with another receiver (a function made a method, a method made a function, another receiver type):
 	// accepted when exactly one function of that package has the name
 	dot := strings.LastIndex(key, ".")
@@ -218,6 +225,70 @@ func (r *Repo) lookup(key string) *FuncInfo {
 		}
 	}
 	return found
+}
+
+// visitorLiteral: the single function literal of package derive that is passed to ast.Inspect (directly or through a local
+// variable) and looks identifiers up in a Uses table — the call finder written as a closure. It is presented as a function
+// declaration named Visit (same parameter, same body).
+func (r *Repo) visitorLiteral() *FuncInfo {
+	if r.visitorLit != nil {
+		return r.visitorLit
+	}
+	p := r.ByName["derive"]
+	if p == nil {
+		return nil
+	}
+	var found []*FuncInfo
+	for _, fi := range r.sortedFuncs() {
+		if fi.Pkg != p {
+			continue
+		}
+		lits := map[types.Object]*ast.FuncLit{}
+		ast.Inspect(fi.Decl.Body, func(n ast.Node) bool {
+			if as, ok := n.(*ast.AssignStmt); ok && len(as.Lhs) == 1 && len(as.Rhs) == 1 {
+				if id, ok := as.Lhs[0].(*ast.Ident); ok {
+					if fl, ok := as.Rhs[0].(*ast.FuncLit); ok && p.TypesInfo.Defs[id] != nil {
+						lits[p.TypesInfo.Defs[id]] = fl
+					}
+				}
+			}
+			return true
+		})
+		ast.Inspect(fi.Decl.Body, func(n ast.Node) bool {
+			c, ok := n.(*ast.CallExpr)
+			if !ok || !isPkgFunc(callee(p.TypesInfo, c), "go/ast", "Inspect") || len(c.Args) != 2 {
+				return true
+			}
+			var fl *ast.FuncLit
+			switch a := ast.Unparen(c.Args[1]).(type) {
+			case *ast.FuncLit:
+				fl = a
+			case *ast.Ident:
+				fl = lits[p.TypesInfo.Uses[a]]
+			}
+			if fl == nil {
+				return true
+			}
+			usesTable := false
+			ast.Inspect(fl.Body, func(m ast.Node) bool {
+				if ix, ok := m.(*ast.IndexExpr); ok {
+					if sel, ok := ast.Unparen(ix.X).(*ast.SelectorExpr); ok && sel.Sel.Name == "Uses" {
+						usesTable = true
+					}
+				}
+				return true
+			})
+			if usesTable {
+				found = append(found, &FuncInfo{Fn: fi.Fn, Pkg: fi.Pkg, Decl: &ast.FuncDecl{Name: ast.NewIdent("Visit"), Type: fl.Type, Body: fl.Body}})
+			}
+			return true
+		})
+	}
+	if len(found) == 1 {
+		r.visitorLit = found[0]
+		return found[0]
+	}
+	return nil
 }
 
 // sortedFuncs returns all declared functions with bodies in deterministic order.
